@@ -108,7 +108,7 @@ struct Ctx {
         if (r) { tasks[tgt].cancelled = true; cancels_true++; if (was_done) error_from_task = "cancel() returned true for a task that had already been executed"; }
         else cancels_false++;
         break; }
-      case B_EXIT: loop->exitLoop(); break;
+      case B_EXIT: if (!exit_blocked.load()) loop->exitLoop(); break;   // (blocked while a controller relies on the loop staying up, see xrun)
       case B_CANCEL_SELF: {   // a task cancels its own id while it is being invoked: it is not pending any more, so this must not succeed
         uint64_t id = t.run_id.load(); if (id == 0) break;
         self_cancels++;
@@ -124,6 +124,7 @@ struct Ctx {
   // its exit task - the loop never goes idle, yet callables handed in through runInLoop() must still be invoked
   std::atomic<bool> chain_allowed{false}; bool chain_active = false; std::atomic<uint64_t> chain_steps{0}; int chains_started = 0;
   int self_cancels = 0;
+  std::atomic<bool> exit_blocked{false};
   void chain_step() { chain_steps++; if (chain_allowed.load()) loop->runNext([this] { chain_step(); }, "chain"); else chain_active = false; }
 };
 
@@ -190,7 +191,7 @@ std::string run(const Scenario &s, CaseInfo &info) {
   };
   std::string drain_err;
   bool reran = false; int runs = 0;
-  uint64_t ctl_seq = 0;
+  uint64_t ctl_seq = 0, xrun_seq = 0; std::atomic<bool> xrun_late{false}; std::atomic<int> xruns{0};
   for (int pi = 0; pi < nphases; ++pi) {
     Phase &ph = phases[pi];
     c.phase_no.store(pi + 1);
@@ -205,16 +206,44 @@ std::string run(const Scenario &s, CaseInfo &info) {
         std::atomic<bool> &exit_executed = *exit_executed_p;
         unsigned delay_us = (unsigned)(ph.a % 4 == 0 ? 0 : ph.a * 3);
         int wait_subs = ph.b % 2, late_before = ph.c % 4, late_after = ph.d % 4;
+        // xrun: while the loop is certainly running (and idle unless a chain is going) the controller hands callables to Loop::run()
+        // and to the const& overloads from its own thread; run() must route them through the thread-safe path, wake-up included
+        bool xrun = (ph.d / 4) % 3 == 2;
+        // only in phases in which every submitter thread has been released already: the controller waits for all of them and for a marker
+        // task, so the loop is idle (apart from a runNext() chain) when run() is called and the latency measured is wake-up latency only
+        for (int t = 0; t < nthreads; ++t) if (sp_of[t] > pi + 1) xrun = false;
+        if (xrun) wait_subs = 1;
+        c.exit_blocked = xrun;   // Loop::run() from another thread is only thread-safe while the loop runs: B_EXIT tasks must not stop it under the controller's feet
         std::thread ctl([&] {
           // wait only for submitters that have been released by this or an earlier phase
           if (wait_subs) for (int t = 0; t < nthreads; ++t) if (sp_of[t] <= pi + 1) while (!sub_done[t].load()) std::this_thread::sleep_for(std::chrono::microseconds(50));
           spin_us(delay_us);
+          if (xrun) {
+            auto marker = std::make_shared<std::atomic<bool>>(false);
+            c.loop->runInLoop([marker] { *marker = true; }, "marker");
+            int64_t t0 = steady_ms(); while (!marker->load() && steady_ms() - t0 < 5000) std::this_thread::sleep_for(std::chrono::microseconds(50));
+            if (marker->load()) {   // the loop is running now and stays so until this thread posts the exit task
+              int n = ph.a % 3 + 1, last = -1;
+              for (int k = 0; k < n; ++k) {
+                int i = c.alloc(kCtlThread, E_RUN, B_NONE, pi, 0, xrun_seq++);
+                if (i < 0) break;
+                std::function<void()> fn = [&c, i] { c.exec(i); };
+                uint64_t id;
+                switch ((ph.a / 3 + k) % 3) { case 0: id = c.loop->run(fn, "xrun-lvalue"); break; case 1: id = c.loop->run(std::move(fn), "xrun-rvalue"); break; default: id = c.loop->runInLoop(fn, "xinloop-lvalue"); break; }
+                c.tasks[i].run_id.store(id); last = i; xruns++;
+              }
+              if (last >= 0) { int64_t t1 = steady_ms(); auto settled = [&] { return c.tasks[last].exec_count.load() > 0 || c.tasks[last].cancelled.load(); };   // (a B_CANCEL task may legitimately cancel it)
+                while (!settled() && steady_ms() - t1 < 2500) std::this_thread::sleep_for(std::chrono::microseconds(50));
+                if (!settled()) xrun_late = true; }
+            }
+            c.exit_blocked = false;
+          }
           auto post = [&](bool is_exit) {
             int i = c.alloc(kCtlThread, E_RUNINLOOP, B_NONE, pi, 0, ctl_seq++);
             if (i < 0) return;
             c.tasks[i].is_exit_of_phase = is_exit;
             uint64_t id;
-            if (is_exit) id = c.loop->runInLoop([&c, exit_executed_p, i] { c.exec(i); *exit_executed_p = true; c.chain_allowed = false; c.loop->exitLoop(); }, "exit");
+            if (is_exit) id = c.loop->runInLoop([&c, exit_executed_p, i] { c.exec(i); *exit_executed_p = true; c.chain_allowed = false; if (!c.exit_blocked.load()) c.loop->exitLoop(); /* a stale exit task of an earlier phase must not stop the loop during an xrun window either */ }, "exit");
             else id = c.loop->runInLoop([&c, i] { c.exec(i); }, "late");
             c.tasks[i].run_id.store(id);
           };
@@ -226,7 +255,7 @@ std::string run(const Scenario &s, CaseInfo &info) {
         // sentinel: fires every 400 ms; a cross-thread exit task not run 2 s after submission while the loop is
         // otherwise idle - or kept busy by a runNext() chain - is a lost wake-up (timers wake the loop but do not process runInLoop tasks)
         tbox::event::TimerEvent *sentinel = c.loop->newTimerEvent("sentinel");
-        sentinel->initialize(std::chrono::milliseconds(400), tbox::event::Event::Mode::kPersist);
+        sentinel->initialize(std::chrono::milliseconds(xrun ? 3000 : 400), tbox::event::Event::Mode::kPersist);   // xrun phases: no other wake-up source for 3 s
         sentinel->setCallback([&] {
           int64_t at = exit_submitted_at.load();
           if (at != 0 && !exit_executed.load() && steady_ms() - at > 2000) { lost_wakeup = true; c.chain_allowed = false; c.loop->exitLoop(); }
@@ -242,7 +271,8 @@ std::string run(const Scenario &s, CaseInfo &info) {
         sentinel->disable();
         delete sentinel;
         ctl.join();
-        if (lost_wakeup) { lost_msg = "TIMING: lost wake-up: exit task submitted through runInLoop() from another thread was not run within 2 s by a loop in runLoop(kForever) (phase " + std::to_string(pi) + (c.chains_started ? ", a runNext() chain kept the loop busy" : ", loop idle") + ")"; }
+        if (xrun_late.load() && !lost_wakeup) { lost_wakeup = true; lost_msg = "TIMING: a callable handed to Loop::run()/runInLoop(const&) from another thread while the loop was running was not invoked within 2.5 s by an otherwise idle loop (phase " + std::to_string(pi) + "): no wake-up"; }
+        else if (lost_wakeup) { lost_msg = "TIMING: lost wake-up: exit task submitted through runInLoop() from another thread was not run within 2 s by a loop in runLoop(kForever) (phase " + std::to_string(pi) + (c.chains_started ? ", a runNext() chain kept the loop busy" : ", loop idle") + ")"; }
         break; }
       case 2: {   // runLoop(kOnce); make sure the pass cannot block
         c.submit_main(E_RUNNEXT, B_NONE, 0, 0);
@@ -310,6 +340,7 @@ std::string run(const Scenario &s, CaseInfo &info) {
   info.cls_if(backend == 1, "select_backend");
   info.cls_if(runs == 0, "never_run_only_destroyed");
   info.cls_if(c.self_cancels > 0, "task_cancels_its_own_id_while_running");
+  info.cls_if(xruns.load() > 0, "run_or_lvalue_overload_called_from_another_thread_while_loop_runs");
   info.cls_if(c.chains_started > 0 && c.chain_steps.load() > 10, "runNext_chain_keeps_loop_busy_while_exit_task_arrives");
   info.nontrivial = n > 0 && ((nthreads >= 2 && runs > 0) || any_cancel || c.late_after_exit.load() > 0 || reran);
   return "";
